@@ -63,6 +63,9 @@ CONTEXTS = [
     ('gwbasic', {'syntax': 'gwbasic'}, []),
     ('view', {}, [b'SCREEN 1', b'VIEW (10,10)-(100,100)', b'WINDOW (-1,-1)-(1,1)']),
     ('traps', {}, [b'KEY(1) ON:TIMER ON:PEN ON:STRIG ON', b'VIEW PRINT 5 TO 10']),
+    # a relative viewport far from the origin and no WINDOW: viewport coordinates inside the screen size map beyond it
+    ('viewfar', {}, [b'SCREEN 1', b'VIEW (100,100)-(200,150)']),
+    ('viewfar9', {'video': 'ega'}, [b'SCREEN 9,,1,1', b'VIEW (500,300)-(630,340),1,2']),
 ]
 
 PROG = [b'10 REM program', b'20 DATA 1,2,"three",4.5', b'30 X=X+1', b'100 REM target', b'110 RETURN', b'65529 END']
@@ -157,6 +160,9 @@ DIRECTED = [
           b'40 FOR I=1 TO 60:Z$=FNA$("q"+STR$(I)):NEXT', b'RUN']),
     ({}, [b'A$=STRING$(50,"x"): B$=LEFT$(A$+"y",0): PRINT FRE(""): B%=INSTR(A$+"y","q"): PRINT FRE("")']),
     ({'peek_values': None}, [b'PRINT PEEK(0)', b'DEF SEG=0:PRINT PEEK(1047)']),
+    ({}, [b'SCREEN 1: VIEW (100,100)-(200,150): PRINT POINT(300,10);POINT(10,199);POINT(319,199)',
+          b'PSET(300,10):PRESET(319,199):LINE (250,0)-(319,199),1,BF:CIRCLE(300,150),40:PAINT(310,10):DRAW "M310,190"',
+          b'DIM G%(2000):GET (0,0)-(100,50),G%:PUT (219,149),G%', b'PUT (300,10),G%']),
 ]
 
 
@@ -588,8 +594,10 @@ def _default(spec, rng, res):
         work = os.path.join(d, 'cwd')
         os.makedirs(work)
         try:
-            p = subprocess.run([sys.executable, '-B', drv], cwd=work, stdin=subprocess.DEVNULL, stdout=subprocess.PIPE,
-                               stderr=subprocess.STDOUT, timeout=1800)
+            # stdin is a pipe at end-of-file (a statement that prompts, e.g. a bare RANDOMIZE, sees its input closed);
+            # /dev/null would not do: FIONREAD fails on it, the input thread dies and the prompt waits forever
+            p = subprocess.run([sys.executable, '-B', drv], cwd=work, input=b'', stdout=subprocess.PIPE,
+                               stderr=subprocess.STDOUT, timeout=600)
         except subprocess.TimeoutExpired:
             res.inconclusive('default-configuration driver timed out')
             return
